@@ -536,6 +536,8 @@ class Ctx:
     symbolic = True
 
     def __init__(self, timeout_ms=30000, max_paths=2_000_000, record_queries=0, seed=0, prefix=()):
+        self.max_degree = None     # polynomials above this degree are forked on without asking the solver
+        self.blind_forks = 0
         self.split = tuple(prefix) if prefix else None   # (i, N, depth)
         self.fork_outcomes = []
         self.skipped = 0
@@ -762,6 +764,18 @@ class Ctx:
                 self.path_forked = True
                 self._fork_outcome(1 if val else 0)
             return val
+        if self.max_degree is not None and p.degree() > self.max_degree:
+            # blind fork: both outcomes are explored, nothing is asserted to the solver (keeps the path condition in the
+            # decidable fragment). This over-approximates path feasibility: sound for 'holds'; a violation found on such a
+            # path must still reproduce in the concrete replay before it is reported.
+            self.blind_forks += 1
+            self.forks += 1
+            self.path_forked = True
+            self.log.append(_Entry("dec", (key, signs), True, forked=True, tried=False, level=self.level, constraint=None))
+            self.pos += 1
+            self.known[key] = kn & signs
+            self._fork_outcome(1)
+            return True
         atom = self._atom(key, signs)
         natom = self._atom(key, _ALL - signs)
         ev = None
@@ -916,7 +930,9 @@ class Ctx:
             self._sqrt_pending = getattr(self, "_sqrt_pending", [])
         # y >= 0 and radicand >= 0; y*y == radicand is applied as a rewrite rule during
         # normalisation (the solver only sees y as a non-negative real: an over-approximation)
-        self.assume(z3.And(self.poly_z3(y.n) >= 0, self.poly_z3(q.n) >= 0))
+        # (radicand >= 0 is not asserted: it would make the path condition nonlinear, and every radicand in the
+        #  analysed code is a sum of squares; leaving it out only enlarges the set of models, which is sound for proving)
+        self.assume(self.poly_z3(y.n) >= 0)
         return y
 
     def exp(self, q):
@@ -948,6 +964,27 @@ class Ctx:
         half = Fraction(1, 2)
         self.assume(z3.And(self.rel(n - half, "<", q), self.rel(q, "<", n + half)))
         return n
+
+    def rint_enum(self, q, K=3):
+        """nearest integer of q by forking over the concrete candidates -K..K (keeps every query linear);
+        exact ties and |q| >= K + 1/2 are outside the bound (path dropped, noted)."""
+        q = _num(q)
+        if q.is_const():
+            return self.rint(q)
+        half = Fraction(1, 2)
+        for n in sorted(range(-K, K + 1), key=abs):
+            if q > n - half and q < n + half:
+                return qconst(n)
+        self.note("rint-tie-or-out-of-bound")
+        raise _Abort()
+
+    def rotation(self, name):
+        """(c, s) with c^2 + s^2 = 1, applied as the rewrite rule s^2 -> 1 - c^2 during normalisation."""
+        ci = self._newvar(f"{name}.c", "real", False)
+        si = self._newvar(f"{name}.s", "real", False)
+        c, s = Q(Poly.var(ci)), Q(Poly.var(si))
+        self.rules[si] = Poly.const(1) - Poly.var(ci) * Poly.var(ci)
+        return c, s
 
     # -- properties
     def cover(self, tag):
@@ -1025,9 +1062,10 @@ class Ctx:
                     self.level -= 1
                 e.tried = True
                 e.value = False
-                self.solver.push()
-                self.level += 1
-                self.solver.add(e.constraint[1])
+                if e.constraint is not None:
+                    self.solver.push()
+                    self.level += 1
+                    self.solver.add(e.constraint[1])
                 self.model = None
                 return True
             if e.kind == "choice" and e.value + 1 < e.n:
@@ -1092,6 +1130,7 @@ class Ctx:
             "forked_paths": self.forked_paths,
             "infeasible": self.aborted,
             "skipped_other_partition": self.skipped,
+            "blind_forks": self.blind_forks,
             "forks": self.forks,
             "queries": self.nq,
             "solver_s": round(self.tq, 3),
@@ -1235,6 +1274,16 @@ class ConcreteCtx:
         if c + Fraction(1, 2) == n and n % 2:
             n -= 1
         return qconst(n)
+
+    def rint_enum(self, q, K=3):
+        return self.rint(q)
+
+    def rotation(self, name):
+        c = Fraction(self.values[f"{name}.c"])
+        s = Fraction(self.values[f"{name}.s"])
+        if self.mode == "float":
+            return float(c), float(s)
+        return qconst(c), qconst(s)
 
     def cover(self, tag):
         self.covers[tag] = self.covers.get(tag, 0) + 1
